@@ -54,6 +54,44 @@ __CPROVER_ensures(!(num_values != 0 && __CPROVER_old(src_buffer->pos_) < src_buf
     (uint8_t)src_buffer->data_[__CPROVER_old(src_buffer->pos_)] == 1 ? true : (!__CPROVER_return_value && ghost_dispatched_bits == 0)))
 __CPROVER_assigns(ghost_dispatched_bits, src_buffer->pos_);
 
+/* ------------------------------------------------------------------ the symbol loops over a ghost symbol decoder */
+struct GSD { int created; int started; int ended; uint32_t num_symbols; uint32_t decoded; };
+#define GSD_SYMBOL(k) ((uint32_t)(k) ^ 0x5a5a5a5au)        /* the k-th symbol of the ghost stream: any fixed injective function of k */
+int ghost_bits_mode; uint32_t ghost_bits_read;
+void GSD_ctor(struct GSD *d) __CPROVER_ensures(d->created == 0 && d->started == 0 && d->ended == 0 && d->decoded == 0) __CPROVER_assigns(*d);
+bool GSD_Create(struct GSD *d, struct DecoderBuffer *b) __CPROVER_requires(d->created == 0 && DB_INV(b)) __CPROVER_ensures(d->created == 1 && DB_INV(b) && b->pos_ >= __CPROVER_old(b->pos_))
+  __CPROVER_assigns(d->created, d->num_symbols, b->pos_);
+uint32_t GSD_num_symbols(const struct GSD *d) __CPROVER_requires(d->created == 1) __CPROVER_ensures(__CPROVER_return_value == d->num_symbols) __CPROVER_assigns();
+bool GSD_StartDecoding(struct GSD *d, struct DecoderBuffer *b) __CPROVER_requires(d->created == 1 && d->started == 0 && DB_INV(b))
+  __CPROVER_ensures(d->started == (__CPROVER_return_value ? 1 : 0) && DB_INV(b) && b->pos_ >= __CPROVER_old(b->pos_)) __CPROVER_assigns(d->started, b->pos_);
+/* rans_read needs a non-empty probability table (its LUT slots index it): decoding from a decoder without symbols is the memory-safety hazard */
+uint32_t GSD_DecodeSymbol(struct GSD *d) __CPROVER_requires(d->started == 1 && d->ended == 0 && d->num_symbols >= 1)
+  __CPROVER_ensures(d->decoded == __CPROVER_old(d->decoded) + 1 && __CPROVER_return_value == GSD_SYMBOL(__CPROVER_old(d->decoded))) __CPROVER_assigns(d->decoded);
+void GSD_EndDecoding(struct GSD *d) __CPROVER_requires(d->started == 1) __CPROVER_ensures(d->ended == 1) __CPROVER_assigns(d->ended);
+void GBITS_Start(struct DecoderBuffer *b) __CPROVER_requires(ghost_bits_mode == 0) __CPROVER_ensures(ghost_bits_mode == 1) __CPROVER_assigns(ghost_bits_mode);
+bool GBITS_Decode(struct DecoderBuffer *b, uint32_t nbits, uint32_t *v) __CPROVER_requires(ghost_bits_mode == 1) __CPROVER_ensures(ghost_bits_read == __CPROVER_old(ghost_bits_read) + 1) __CPROVER_assigns(*v, ghost_bits_read);
+void GBITS_End(struct DecoderBuffer *b) __CPROVER_requires(ghost_bits_mode == 1) __CPROVER_ensures(ghost_bits_mode == 0) __CPROVER_assigns(ghost_bits_mode);
+#define SYM_MAXVALS ((uint32_t)1 << 28)
+/* raw scheme loop: on success exactly num_values symbols were decoded, in order, into out_values[0..num_values); nothing is decoded from a decoder
+ * without symbols; the reader only moves forward */
+bool DecodeRawSymbolsInternal(uint32_t num_values, struct DecoderBuffer *src_buffer, uint32_t *out_values)
+__CPROVER_requires(DB_FRESH(src_buffer) && num_values <= SYM_MAXVALS && __CPROVER_is_fresh(out_values, (size_t)(num_values ? num_values : 1) * 4))
+__CPROVER_ensures(DB_INV(src_buffer) && src_buffer->pos_ >= __CPROVER_old(src_buffer->pos_))
+__CPROVER_ensures(!(__CPROVER_return_value && ghost_len < num_values) || out_values[ghost_len] == GSD_SYMBOL(ghost_len))
+__CPROVER_assigns(src_buffer->pos_, __CPROVER_object_whole(out_values));
+/* tagged scheme loop (caller obligations: num_components >= 1 and num_values a multiple of it -- every in-tree caller passes entries * components):
+ * every store lands inside out_values[0..num_values), one bit-length symbol is decoded per entry and num_components values per entry, the bit reader is
+ * opened and closed around the loop */
+bool DecodeTaggedSymbols(uint32_t num_values, int num_components, struct DecoderBuffer *src_buffer, uint32_t *out_values)
+#ifdef TAG_NC   /* the job fixes the component count: `i += num_components` and the divisibility invariant are then arithmetic with a constant */
+__CPROVER_requires(num_components == TAG_NC)
+#endif
+__CPROVER_requires(DB_FRESH(src_buffer) && num_values <= SYM_MAXVALS && num_components >= 1 && num_components <= 255 && num_values % (uint32_t)num_components == 0 && \
+                   __CPROVER_is_fresh(out_values, (size_t)(num_values ? num_values : 1) * 4) && ghost_bits_mode == 0 && ghost_bits_read == 0)
+__CPROVER_ensures(DB_INV(src_buffer) && src_buffer->pos_ >= __CPROVER_old(src_buffer->pos_))
+__CPROVER_ensures(!__CPROVER_return_value || ghost_bits_mode == 0)
+__CPROVER_assigns(src_buffer->pos_, ghost_bits_mode, ghost_bits_read, __CPROVER_object_whole(out_values));
+
 #ifdef VERIF_CBMC
 #include "core_helpers.h"
 #include "core_slice.c"
@@ -62,6 +100,30 @@ __CPROVER_assigns(ghost_dispatched_bits, src_buffer->pos_);
 void h_enf_ComputeRAnsPrecision(void) { AGHOSTS(); int b; ComputeRAnsPrecisionFromUniqueSymbolsBitLength(b); HARNESS_END(); }
 void h_enf_RSD_Create(void) { AGHOSTS(); struct RSD *d; struct DecoderBuffer *b; RSD_Create(d, b); HARNESS_END(); }
 void h_enf_DecodeRawSymbols(void) { AGHOSTS(); ghost_dispatched_bits = 0; uint32_t n; struct DecoderBuffer *b; uint32_t *o; DecodeRawSymbols(n, b, o); HARNESS_END(); }
+void h_enf_DecodeRawSymbolsInternal(void) { AGHOSTS(); uint32_t n; struct DecoderBuffer *b; uint32_t *o; DecodeRawSymbolsInternal(n, b, o); HARNESS_END(); }
+void h_enf_DecodeTaggedSymbols(void) { AGHOSTS(); ghost_bits_mode = 0; ghost_bits_read = 0; uint32_t n; int c; struct DecoderBuffer *b; uint32_t *o; DecodeTaggedSymbols(n, c, b, o); HARNESS_END(); }
+/* symbols.StartDecoding (C08/C02/C18/C06): RAnsSymbolDecoder::StartDecoding on ARBITRARY bytes, any length, both version paths: the payload size declared
+ * by the stream must fit into the remaining input, the reader is positioned exactly behind the payload (size field + payload), the rANS reader gets
+ * exactly the payload and ends in a valid state.  (>= 3 readable bytes precede the size field: see rans.read_init.safe.) */
+void h_rsd_start(void) {
+  AGHOSTS();
+  int64_t size, pos; uint16_t version; __CPROVER_assume(3 <= pos && pos <= size && size <= ((int64_t)1 << 30));
+  char *data = malloc((size_t)size); __CPROVER_assume(data != 0);
+  struct DecoderBuffer db; db.data_ = data; db.data_size_ = size; db.pos_ = pos; db.bit_mode_ = false; db.bitstream_version_ = version;
+  struct RAnsDecoder ans; ans.lut_table_.data = 0; ans.lut_table_.size = 0; ans.lut_table_.cap = 0; ans.probability_table_.data = 0; ans.probability_table_.size = 0; ans.probability_table_.cap = 0;
+  ans.ans_.buf = 0; ans.ans_.buf_offset = 0; ans.ans_.state = 0;
+  struct RSD d; d.probability_table_.data = 0; d.probability_table_.size = 0; d.probability_table_.cap = 0; d.num_symbols_ = 0; d.ans_ = &ans; d.remaining_at_entry = size - pos;
+  bool ok = RSD_StartDecoding(&d, &db);
+  __CPROVER_assert(DB_INV(&db) && db.pos_ >= pos, "symbols.StartDecoding.reader_position_valid_and_monotone");
+  if (ok) {
+    int64_t payload = (int64_t)(db.pos_ - pos);   /* size field + payload */
+    __CPROVER_assert(ans.ans_.buf >= (const uint8_t *)data + pos && ans.ans_.buf <= (const uint8_t *)data + db.pos_, "symbols.StartDecoding.payload_starts_behind_the_size_field");
+    __CPROVER_assert((const uint8_t *)data + db.pos_ - ans.ans_.buf >= 1 && ans.ans_.buf_offset >= -3 && ans.ans_.buf_offset < (const uint8_t *)data + db.pos_ - ans.ans_.buf, "symbols.StartDecoding.rans_reader_confined_to_the_declared_payload");   /* -3: the 4-byte final-state form in a shorter payload, see rans.read_init.safe */
+    __CPROVER_assert(ans.ans_.state >= (uint32_t)l_rans_base && ans.ans_.state < RD_TOP, "symbols.StartDecoding.state_in_range");
+    __CPROVER_assert(payload <= size - pos, "symbols.StartDecoding.payload_fits_remaining_input");
+  }
+  HARNESS_END();
+}
 void h_enf_DecodeSymbols(void) { AGHOSTS(); ghost_dispatched_bits = 0; uint32_t n; int c; struct DecoderBuffer *b; uint32_t *o; DecodeSymbols(n, c, b, o); HARNESS_END(); }
 /* symbols.Create.alloc_guard (C18/C02, unbounded): RAnsSymbolDecoder::Create on ARBITRARY bytes, any buffer length, any version, up to and
  * including the allocation of the probability table: the table is sized only within the C18 bound.  The resize stand-in checks its
